@@ -372,6 +372,19 @@ func (env *specEnv) selector(t *ast.SelectorExpr) SVal {
 				return SVal{V: base.V.(Struct).F[i], T: st.Field(i).Type()}
 			}
 		}
+		// promoted field of an embedded struct value (one level)
+		for i := 0; i < st.NumFields(); i++ {
+			if !st.Field(i).Embedded() {
+				continue
+			}
+			if est, ok := st.Field(i).Type().Underlying().(*types.Struct); ok {
+				for j := 0; j < est.NumFields(); j++ {
+					if est.Field(j).Name() == t.Sel.Name {
+						return SVal{V: base.V.(Struct).F[i].(Struct).F[j], T: est.Field(j).Type()}
+					}
+				}
+			}
+		}
 	}
 	specErr("selector .%s on %s", t.Sel.Name, bt)
 	return SVal{}
@@ -803,6 +816,11 @@ func (env *specEnv) call(t *ast.CallExpr) SVal {
 		i := env.asInt64(env.toType(env.eval(t.Args[1]), types.Typ[types.Int]))
 		p := toPtr(pv.V)
 		return SVal{V: Scalar{T: c.loadCell(env.heap, K8, Ptr{p.R, c.Add(p.O, i)}, 0)}, T: types.Typ[types.Uint8]}
+	case "bytes":
+		// bytes(p, n): the []byte view of the n bytes at an unsafe pointer (what rt.BytesFrom(p, n, n) denotes)
+		pv := env.eval(t.Args[0])
+		n := env.asInt64(env.toType(env.eval(t.Args[1]), intT))
+		return SVal{V: Slice{P: toPtr(pv.V), Len: n, Cap: n}, T: types.NewSlice(types.Typ[types.Uint8])}
 	case "bits":
 		v := env.eval(t.Args[0])
 		w, _, ok := intInfo(v.T)
